@@ -20,6 +20,18 @@ CHECKS = {
         ref="DESIGN.md §3 C16", technique="symbolic execution (z3 proxies) of the real heap, exhaustive path exploration within bounds"),
 }
 
+for _pid, _t in [("C01", "edit script accounting (every child exactly once, list order, diff-tree annotations)"),
+                  ("C03", "cost = sum of parts in the diff tree, the flat edit list and the refined top-level edit"),
+                  ("C04", "monotone, sound, converging bounds (passive and active monitor around every Bounded class)")]:
+    CHECKS[_pid] = dict(
+        text="Bounded symbolic execution of the real diff engine on two documents built by the real json.build_tree whose leaf "
+             "values are all symbolic (z3 decides every equality pattern, size relation, pairwise cost and through them every "
+             "alignment/assignment the engine can choose) for every container shape, option combination and nesting in the stated "
+             "bound; oracle: " + _t + "; every failing path is replayed on the un-stubbed code before it is reported.",
+        note=TB + "Environment stubs (numpy matrix, interval tree, scipy assignment as a contract, progress bar) are listed in the "
+             "evidence file; documents beyond the stated shapes, text longer than 2 characters, floats and XML are outside the claim.",
+        ref="DESIGN.md §2, §3 " + _pid, technique="symbolic execution (z3 proxies) of the real diff engine, exhaustive path exploration within bounds")
+
 NOT_APPLICABLE = {
     "C12": "every route from leaf text to output and every oracle (loaders) is C code (json.dumps, csv, libyaml, plistlib, "
            "html.escape) behind which a symbolic engine must realise the input; nothing symbolic is left to decide (DESIGN §3 C12)",
